@@ -85,6 +85,14 @@ class _Env(object):
     def trigger(test, tp):
       test.dut_id = 'dut-c11'
     self.trigger = htf.plug(tp=TriggerPlug)(trigger)
+
+    # a phase whose function declares no default values and takes a plug
+    class TailPlug(base_plugs.BasePlug):
+      pass
+
+    def tail(test, tp):
+      test.logger.info('tail %s', type(tp).__name__)
+    self.tail = htf.plug(tp=TailPlug)(tail)
     from openhtf.util import configuration
     try:
       configuration.CONF.declare('c11_settings', 'container-valued configuration', default_value={'token': ['secret']})
@@ -189,7 +197,8 @@ def _run_d(case):
   htf, ph = env.htf, env.root
   op = case['op']
   if op == 'withArgs':
-    d = ph.with_args(x=7)
+    # also with only arguments the phase function does not take (still a copy)
+    d = ph.with_args(x=7) if case.get('how') != 'unknown' else ph.with_args(not_a_parameter=7)
   elif op == 'withPlugsMatch':
     d = ph.with_plugs(pl=env.Sub)
   elif op == 'withPlugsNone':
@@ -297,6 +306,8 @@ def _run_s(case):
         add(_subst(env, src))
       elif kind == 'with_plugs_none':
         add(src.with_plugs(nothing=env.Sub))
+      elif kind == 'with_args_none':
+        add(src.with_args(not_a_parameter=step[2]))
       elif kind == 'copy':
         add(src.copy())
       elif kind == 'options':
@@ -334,8 +345,10 @@ def _run_s(case):
         continue
       elif kind == 'execute':
         node = src
-        t = htf.Test(_subst(env, node))
+        t = htf.Test(_subst(env, node), env.tail)
         recs = []
+        watch = [env.trigger, env.tail, t.descriptor.phase_sequence]
+        watch_snaps = [json.dumps(_snap(o), sort_keys=True, default=str) for o in watch]
         t.add_output_callbacks(recs.append)
         t.configure(name='c11')
         firsts = {}
@@ -360,6 +373,9 @@ def _run_s(case):
           failed_ctor, env.fail_ctor = env.fail_ctor, False
           if json.dumps(_snap(t._test_options), sort_keys=True, default=str) != before_opts:
             facts.append('X:test-options-changed-by-a-run')
+          for wi, o in enumerate(watch):
+            if json.dumps(_snap(o), sort_keys=True, default=str) != watch_snaps[wi]:
+              facts.append('X:%s-changed-by-a-run' % ('trigger-phase', 'declared-phase', 'phase-tree-of-the-test')[wi])
           if env.conf.c11_settings != {'token': ['secret']}:
             facts.append('X:global-configuration-changed-by-a-run')
             env.conf.c11_settings['token'][:] = ['secret']
@@ -461,7 +477,7 @@ def nontrivial_key(case, o):
   return json.dumps(case, sort_keys=True)
 
 
-DERIVES = ['with_args', 'with_plugs', 'with_plugs_none', 'copy', 'options', 'measures', 'load_code_info', 'seq', 'group',
+DERIVES = ['with_args', 'with_args_none', 'with_plugs', 'with_plugs_none', 'copy', 'options', 'measures', 'load_code_info', 'seq', 'group',
            'subtest']
 
 
@@ -472,6 +488,7 @@ def gen_cases(rng, tier):
     cases.append({'kind': 'D', 'op': 'copy', 'how': how})
   for op in ('withArgs', 'withPlugsMatch', 'withPlugsNone'):
     cases.append({'kind': 'D', 'op': op})
+  cases.append({'kind': 'D', 'op': 'withArgs', 'how': 'unknown'})
   for i in range(500 if quick else 8000):
     r = rng.derive(i)
     ops = []
